@@ -54,7 +54,14 @@ def doc_maker(g, what, n):
     if lines:
         lines.append("")
     lines.append(f"zq{n}x0w0")
+    if ch.bool(1, 3):
+        # a second paragraph: summaries show the first one only, the documenting page must show both
+        lines += ["", f"zq{n}x1w0"]
     return [" " + l if l else "" for l in lines]
+
+
+def tracers_of(doc):
+    return [m.group() for l in (doc or []) for m in [TRACER.search(l.strip())] if m]
 
 
 def meta_of(doc):
@@ -120,15 +127,17 @@ def expect_project(proj, options):
         pdisp = []
 
     def mark(node_doc, selected, where, exempt=False):
-        t, _, _ = meta_of(node_doc)
-        if not t:
+        ts = tracers_of(node_doc)
+        if not ts:
             return
         if exempt:
-            X.skip.add(t)
+            X.skip.update(ts)
         elif selected:
-            X.show.append((t, where))
+            X.show.append((ts[-1], where))       # the last paragraph: the whole comment is on the documenting page
+            X.skip.update(ts[:-1])
         else:
-            X.hide.append((t, where))
+            for t in ts:
+                X.hide.append((t, where))
 
     def var_decls(decls, disp, default, where, assert_=True):
         for d in decls:
@@ -185,9 +194,7 @@ def expect_project(proj, options):
         out = []
         if isinstance(node, dict):
             if "doc" in node and node["doc"]:
-                t, _, _ = meta_of(node["doc"])
-                if t:
-                    out.append(t)
+                out += tracers_of(node["doc"])
             for v in node.values():
                 out += all_tracers(v)
         elif isinstance(node, list):
@@ -211,6 +218,7 @@ def expect_project(proj, options):
                 var_decls(u.get("decls", []), mdisp, default, page)
                 # procedures that are shown by reference
                 by_ref = set()
+                shown_on_type = {}        # implementation name -> page of a shown type whose shown binding names it
                 for d in u.get("decls", []):
                     if d["d"] == "interface" and d["form"] == "generic":
                         by_ref.update(x.lower() for x in d.get("modprocs", []))
@@ -237,6 +245,8 @@ def expect_project(proj, options):
                         for b in d.get("binds", []):
                             bsel = sel and access_of(b, bdef) in tdisp and X.ok_doc(b.get("doc"))
                             mark(b.get("doc"), bsel, tpage)
+                            if bsel and not b.get("generic") and not b.get("deferred"):
+                                shown_on_type.setdefault((b.get("target") or b["name"]).lower(), tpage)
                     elif d["d"] == "interface":
                         if d["form"] == "generic":
                             acc = access_of(d, default)
@@ -277,6 +287,12 @@ def expect_project(proj, options):
                     if exempt:
                         for t in all_tracers(p):
                             X.skip.add(t)
+                        ts = tracers_of(p.get("doc"))
+                        if ts and not sel and p["name"].lower() in shown_on_type and acc in ("public", "private"):
+                            # an implementation without a page of its own: the type page that shows the binding carries
+                            # the whole comment
+                            X.skip.discard(ts[-1])
+                            X.show.append((ts[-1], shown_on_type[p["name"].lower()]))
                         continue
                     mark(p.get("doc"), sel, ppage)
                     if not sel:
